@@ -90,6 +90,11 @@ func checkC18(c *Ctx) error {
 			decls = append(decls, decl{"version: " + g + "\n", &gg, "str"}) // unquoted plain scalar
 		}
 	}
+	// long versions (a digest as build metadata, many prerelease identifiers): well-formed, so they go through the gate
+	for _, long := range []string{"0.3.0+sha." + strings.Repeat("0123456789abcdef", 3), "1.2.0-rc.1.alpha.beta.gamma.delta.epsilon.zeta.eta.theta.iota.kappa+build.2026.10.02", "2.1.7+" + strings.Repeat("x", 200), "0.0.1-" + strings.Repeat("a1.", 40) + "z"} {
+		l := long
+		decls = append(decls, decl{fmt.Sprintf("version: %q\n", long), &l, "str"})
+	}
 	decls = append(decls, decl{"", nil, "absent"})
 	for _, bad := range []string{"v1.2.3", "1.2.3.4", "01.2.3", "1.02.3", "abc", "", "1.2.3-", "1.2.3+", "1..3", " 1.2.3", "1.2.3 ", "1.2.3-rc..1", "1.2.3-01"} {
 		b := bad
